@@ -240,6 +240,24 @@ class Run:
     def run_model(self, cmds, timeout=600):
         return self.run_side([self.driver], cmds, timeout, crash_word="model-crash")
 
+    def run_both(self, cmds, timeout=300):
+        """Implementation first; a trailing ' @token' of an implementation output line is feedback for the model
+        (values only the running implementation knows, e.g. the descriptor numbers its RNG handed out): it is
+        stripped from the compared output and appended to the model's command."""
+        raw = self.run_impl(cmds, timeout)
+        impl, mcmds = [], []
+        for i, c in enumerate(cmds):
+            o = raw[i] if i < len(raw) else None
+            if o is not None and " @" in o:
+                o, fb = o.split(" @", 1)
+                mcmds.append(c + " @" + fb)
+            else:
+                mcmds.append(c)
+            if o is not None:
+                impl.append(o)
+        model = self.run_model(mcmds, timeout * 2)
+        return impl, model
+
     def gen(self, seed, tier):
         p = subprocess.run([self.axh, "gen", self.cfg.get("gen", self.pid), tier, str(seed)], capture_output=True,
                            text=True, env=self.env)
@@ -249,9 +267,17 @@ class Run:
 
     # ---------------------------------------------------------------- compare
     def line_equal(self, cmd, a, b):
+        if b == "unspecified" or (a == "skipped" and b != "model-crash"):
+            # state after a failed instruction is not specified by any property / rest of a case whose
+            # implementation side died (the death itself is reported at the line where it happened)
+            return True
         eq = self.cfg.get("line_equal")
         if eq:
             return eq(cmd, a, b)
+        if a != b and "=?" in b:
+            # a field the model declares unknown (flags after a failed instruction)
+            ta, tb = a.split(" "), b.split(" ")
+            return len(ta) == len(tb) and all(x == y or (y.endswith("=?") and x.split("=")[0] == y[:-2]) for x, y in zip(ta, tb))
         return a == b
 
     def diff_case(self, cmds, impl, model):
@@ -264,8 +290,7 @@ class Run:
         return None
 
     def case_fails(self, cmds):
-        impl = self.run_impl(cmds, timeout=60)
-        model = self.run_model(cmds, timeout=60)
+        impl, model = self.run_both(cmds, timeout=60)
         d = self.diff_case(cmds, impl, model)
         return d, impl, model
 
@@ -402,8 +427,7 @@ class Run:
         batches += gens
 
         def run_batch(cmds):
-            impl = self.run_impl(cmds, timeout=cfg.get("timeout", 600))
-            model = self.run_model(cmds, timeout=cfg.get("timeout", 600) * 2)
+            impl, model = self.run_both(cmds, timeout=cfg.get("timeout", 600))
             return cmds, impl, model
 
         with concurrent.futures.ThreadPoolExecutor(max_workers=min(NCPU, max(1, len(batches)))) as ex:
